@@ -33,6 +33,10 @@ def compose(rng, i, with_gene):
 def gen_fasta(rng, n, gene_share, with_gene=None, max_len=40, allow_empty=True):
     """[with_gene]: the exact set of record numbers that carry a gene name (instead of the random share)"""
     lines, fields = [], []
+    if rng.random() < 0.12:
+        # text before the first header (a comment or banner line of an exported database, stray residues): it belongs to no record
+        lines += [rng.choice(["; exported 2024-05-01\n", "# UniProt release 2024_02\n", "ACDEFGHIK\n", "\n; comment\n"])
+                  for _ in range(rng.choice([1, 1, 2]))]
     for i in range(n):
         h, f = compose(rng, i, (rng.random() < gene_share) if with_gene is None else (i in with_gene))
         # (a record may have no sequence line at all: its header is followed directly by the next header or the end of the file)
